@@ -1676,6 +1676,12 @@ func (r *RIBHolder) DeleteMPLS(e *aftpb.Afts_LabelEntryKey) (bool, *aft.Afts_Lab
 		return false, nil, fmt.Errorf("unsupported label type %T, only uint64 labels are supported, %v", e, e)
 	}
 
+	// The RIB is keyed by a 32-bit label, a value that does not fit names no entry
+	// in it, rather than the entry with the truncated label.
+	if e.GetLabelUint64() > 0xFFFFFFFF {
+		return false, nil, fmt.Errorf("invalid MPLS label %d, does not fit in 32 bits", e.GetLabelUint64())
+	}
+
 	lbl := uint32(e.GetLabelUint64())
 
 	de := r.retrieveMPLS(lbl)
